@@ -167,7 +167,7 @@ fn perturbed_case(ctx: &Ctx, ch: &mut Ch) -> Outcome {
 }
 
 pub fn def(tier: Tier) -> CheckDef {
-    let rounds = tier.pick(4, 60);
+    let rounds = tier.pick(30, 300);
     CheckDef {
         id: "C08",
         level: "exploration",
@@ -178,6 +178,7 @@ pub fn def(tier: Tier) -> CheckDef {
         ],
         idle_limit_s: 300,
         needs_cli: false,
+        fuzz: None,
         parts: vec![
             Part {
                 name: "valid",
@@ -185,7 +186,7 @@ pub fn def(tier: Tier) -> CheckDef {
                 run: Box::new(|ctx, r| ctx.prop("valid", r, 1000, 500, valid_case)),
                 replay: Some(Box::new(|ctx, inp| match inp {
                     ReplayInput::Choices(c) => valid_case(ctx, &mut Ch::new(c)),
-                    ReplayInput::Text(_) => Err(Failure::new("this part replays from choices", "")),
+                    _ => Err(Failure::new("this part replays from choices", "")),
                 })),
             },
             Part {
@@ -194,7 +195,7 @@ pub fn def(tier: Tier) -> CheckDef {
                 run: Box::new(|ctx, r| ctx.prop("perturbed", r, 1000, 500, perturbed_case)),
                 replay: Some(Box::new(|ctx, inp| match inp {
                     ReplayInput::Choices(c) => perturbed_case(ctx, &mut Ch::new(c)),
-                    ReplayInput::Text(_) => Err(Failure::new("this part replays from choices", "")),
+                    _ => Err(Failure::new("this part replays from choices", "")),
                 })),
             },
         ],
